@@ -166,54 +166,55 @@ def gen_main_program(rng, npk=3):
     return files, ids, order
 
 
-def dotted_path_program():
+def dotted_path_program(mod="d"):
     ids = Ids()
     files = {
-        "go.mod": "module m\n\ngo 1.24\n",
-        "a.B/x.go": "package ab\n\nfunc C() int { println(%d); return 1 }\n" % ids.new("m/a.B", "func", "C"),
-        "a/x.go": "package a\n\ntype B struct{}\n\nfunc (B) C() int { println(%d); return 2 }\n" % ids.new("m/a", "method", "B.C"),
-        "main.go": 'package main\n\nimport (\n\t"m/a"\n\tab "m/a.B"\n)\n\nfunc main() { println(ab.C(), a.B{}.C()) }\n',
+        "go.mod": "module %s\n\ngo 1.24\n" % mod,
+        "a.B/x.go": "package ab\n\nfunc C() int { println(%d); return 1 }\n" % ids.new(mod + "/a.B", "func", "C"),
+        "a/x.go": "package a\n\ntype B struct{}\n\nfunc (B) C() int { println(%d); return 2 }\n" % ids.new(mod + "/a", "method", "B.C"),
+        "main.go": 'package main\n\nimport (\n\t"%s/a"\n\tab "%s/a.B"\n)\n\nfunc main() { println(ab.C(), a.B{}.C()) }\n' % (mod, mod),
     }
-    order = [{"path": "m/a.B", "dir": "a.B", "files": ["x.go"]}, {"path": "m/a", "dir": "a", "files": ["x.go"]}, {"path": "m", "dir": ".", "files": ["main.go"]}]
+    order = [{"path": mod + "/a.B", "dir": "a.B", "files": ["x.go"]}, {"path": mod + "/a", "dir": "a", "files": ["x.go"]}, {"path": mod, "dir": ".", "files": ["main.go"]}]
     files["order.json"] = json.dumps({"pkgs": order})
     return files, ids, order
 
 
-def wrapper_collision_program():
+def wrapper_collision_program(mod="w"):
     ids = Ids()
     files = {
-        "go.mod": "module m\n\ngo 1.24\n",
-        "a/x.go": "package a\n\ntype T struct{ X int }\n\nfunc (t T) M() int { println(%d); return 1 }\n" % ids.new("m/a", "method", "T.M"),
-        "b/x.go": "package b\n\ntype T struct{ X int }\n\nfunc (t T) M() int { println(%d); return 11 }\n" % ids.new("m/b", "method", "T.M"),
-        "main.go": ('package main\n\nimport (\n\t"m/a"\n\t"m/b"\n)\n\ntype T struct{ X int }\n\nfunc (t T) M() int { println(%d); return 21 }\n\n'
+        "go.mod": "module %s\n\ngo 1.24\n" % mod,
+        "a/x.go": "package a\n\ntype T struct{ X int }\n\nfunc (t T) M() int { println(%d); return 1 }\n" % ids.new(mod + "/a", "method", "T.M"),
+        "b/x.go": "package b\n\ntype T struct{ X int }\n\nfunc (t T) M() int { println(%d); return 11 }\n" % ids.new(mod + "/b", "method", "T.M"),
+        "main.go": ('package main\n\nimport (\n\t"MOD/a"\n\t"MOD/b"\n)\n\ntype T struct{ X int }\n\nfunc (t T) M() int { println(%d); return 21 }\n\n'
                     "func call(f func() int) int { return f() }\n\nfunc main() {\n\tf1 := a.T{}.M\n\tf2 := T{}.M\n\tf3 := b.T{}.M\n\tprintln(call(f1), call(f2), call(f3))\n"
-                    "\te1 := a.T.M\n\te2 := T.M\n\te3 := b.T.M\n\tprintln(e1(a.T{}), e2(T{}), e3(b.T{}))\n}\n") % ids.new("m", "method", "T.M"),
+                    "\te1 := a.T.M\n\te2 := T.M\n\te3 := b.T.M\n\tprintln(e1(a.T{}), e2(T{}), e3(b.T{}))\n}\n").replace("MOD", mod) % ids.new(mod, "method", "T.M"),
     }
-    order = [{"path": "m/a", "dir": "a", "files": ["x.go"]}, {"path": "m/b", "dir": "b", "files": ["x.go"]}, {"path": "m", "dir": ".", "files": ["main.go"]}]
+    order = [{"path": mod + "/a", "dir": "a", "files": ["x.go"]}, {"path": mod + "/b", "dir": "b", "files": ["x.go"]}, {"path": mod, "dir": ".", "files": ["main.go"]}]
     files["order.json"] = json.dumps({"pkgs": order})
     return files, ids, order
 
 
-def linkname_program():
+def linkname_program(mod="k"):
     """-> files, expected stderr lines, [(Go function, declared external symbol, kind)]"""
     files = {
-        "go.mod": "module m\n\ngo 1.24\n",
+        "go.mod": "module %s\n\ngo 1.24\n" % mod,
         "c/x.go": ('package c\n\nimport _ "unsafe"\n\n//go:linkname Strlen C.strlen\nfunc Strlen(s *int8) uintptr\n\n'
                    '//go:linkname Abs C.abs\nfunc Abs(x int32) int32\n\n//go:linkname labs C.labs\nfunc labs(x int) int\n\nfunc Labs(x int) int { return labs(x) }\n'),
-        "main.go": ('package main\n\nimport (\n\t_ "unsafe"\n\n\t"m/c"\n)\n\n//go:linkname mystrlen C.strlen\nfunc mystrlen(s *int8) uintptr\n\n'
+        "main.go": ('package main\n\nimport (\n\t_ "unsafe"\n\n\t"MOD/c"\n)\n\n//go:linkname mystrlen C.strlen\nfunc mystrlen(s *int8) uintptr\n\n'
                     '//go:linkname atoi C.atoi\nfunc atoi(s *int8) int32\n\n//export MyExported\nfunc MyExported(x int) int { return x + 1 }\n\n'
                     '//export Twice\nfunc Twice(x int32) int32 { return 2 * x }\n\n//go:linkname callTwice C.Twice\nfunc callTwice(x int32) int32\n\n'
                     "func main() {\n\tbuf := [6]int8{52, 50, 55, 0, 0, 0}\n\tprintln(mystrlen(&buf[0]), c.Strlen(&buf[1]), atoi(&buf[0]), c.Abs(-5), c.Labs(-9))\n"
-                    "\tprintln(MyExported(1), Twice(4), callTwice(21))\n}\n"),
+                    "\tprintln(MyExported(1), Twice(4), callTwice(21))\n}\n").replace("MOD", mod),
     }
-    order = [{"path": "m/c", "dir": "c", "files": ["x.go"]}, {"path": "m", "dir": ".", "files": ["main.go"]}]
+    order = [{"path": mod + "/c", "dir": "c", "files": ["x.go"]}, {"path": mod, "dir": ".", "files": ["main.go"]}]
     files["order.json"] = json.dumps({"pkgs": order})
     expected = ["3 2 427 5 9", "2 8 42"]
-    binds = [  # (module, Go-level origName, external symbol, "declare"|"define")
-        ("m", "m.mystrlen", "strlen", "declare"), ("m", "m.atoi", "atoi", "declare"), ("m/c", "m/c.Strlen", "strlen", "declare"),
-        ("m/c", "m/c.Abs", "abs", "declare"), ("m/c", "m/c.labs", "labs", "declare"),
+    binds = [  # (module that references/defines, Go-level name, external symbol, "declare"|"define")
+        ("m", "m.mystrlen", "strlen", "declare"), ("m", "m.atoi", "atoi", "declare"), ("m", "m/c.Strlen", "strlen", "declare"),
+        ("m", "m/c.Abs", "abs", "declare"), ("m/c", "m/c.labs", "labs", "declare"),
         ("m", "m.MyExported", "MyExported", "define"), ("m", "m.Twice", "Twice", "define"), ("m", "m.callTwice", "Twice", "define"),
     ]
+    binds = [(mod + a[1:], mod + b[1:], c, d) for (a, b, c, d) in binds]
     return files, expected, binds, order
 
 
